@@ -39,8 +39,27 @@ def _split_top(s):
 def norm_atom(c):
     """canonical condition string -> (atom, polarity)"""
     pol = True
+
+    def unwrap(x):
+        # ((a op b)) -> (a op b): a redundant outer pair of parentheses
+        while x.startswith("((") and x.endswith("))"):
+            depth = 0
+            ok_ = True
+            for i_, ch in enumerate(x[1:-1]):
+                if ch == "(":
+                    depth += 1
+                elif ch == ")":
+                    depth -= 1
+                    if depth == 0 and i_ != len(x) - 3:
+                        ok_ = False
+                        break
+            if not ok_:
+                break
+            x = x[1:-1]
+        return x
+    c = unwrap(c)
     while c.startswith("!") and not c.startswith("!="):
-        c = c[1:]
+        c = unwrap(c[1:])
         pol = not pol
     if c.startswith("some(") and c.endswith(")"):
         return "none(" + c[5:], not pol
